@@ -554,6 +554,114 @@ func runC16(cs *c16Case, scratch string, idx int, sr *run.ShardResult) (class, d
 		if c, d := afterCloseChecks(coll, nil); c != "" {
 			return c, d
 		}
+	case "merge-refused-with-blocked-writers":
+		// The application's merge operator refuses to merge (FullMerge
+		// returns false) in every merger cycle for a while.  The merger has
+		// still emptied the dirty top each time, so writers blocked on
+		// back-pressure must get in; every call must return although no
+		// merge succeeds, and everything drains once the operator relents.
+		cfg := cs.Cfg
+		cfg.MergeOp = true
+		if cfg.Backing == "custom" {
+			cfg.Backing = "none"
+		}
+		e := eng.NewExec(cfg, dir, true)
+		defer e.D.Detach()
+		if err := e.Open(); err != nil {
+			return "inconclusive", "open: " + err.Error()
+		}
+		defer atomic.StoreInt32(&eng.MergeFailArmed, 0)
+		coll := e.Coll
+		nt := coll.(notifier)
+		mk := func(fill func(b moss.Batch)) error {
+			b, err := coll.NewBatch(4, 256)
+			if err != nil {
+				return err
+			}
+			defer b.Close()
+			fill(b)
+			return coll.ExecuteBatch(b, moss.WriteOptions{})
+		}
+		// an older version of k in the dirty mid, and a key sorting after it
+		if err := mk(func(b moss.Batch) { b.Set([]byte("k"), []byte("v0")); b.Set([]byte("z"), []byte("1")) }); err != nil {
+			return "inconclusive", err.Error()
+		}
+		if r := e.MergerCycle("mergeAll", ""); r == eng.ResWatchdog {
+			return "inconclusive", "watchdog merger cycle"
+		}
+		f0 := atomic.LoadInt64(&eng.MergeFailures)
+		atomic.StoreInt32(&eng.MergeFailArmed, 1)
+		// the poisoned operand, then enough writers to fill the top and block
+		if err := mk(func(b moss.Batch) { b.Merge([]byte("k"), eng.MergePoison); b.Set([]byte("zz"), []byte("2")) }); err != nil {
+			return "inconclusive", err.Error()
+		}
+		set := &callSet{}
+		var calls []*pendingCall
+		for w := 0; w < cs.Writers+maxPre; w++ {
+			key := fmt.Sprintf("w%d", w)
+			calls = append(calls, set.goCall("ExecuteBatch#"+key, func() error { return execOne(coll, key) }))
+		}
+		deadline := time.Now().Add(wd)
+		for {
+			st, _ := coll.Stats()
+			if st != nil && int(st.TotExecuteBatchWaitBeg) >= cs.Writers+1 {
+				break
+			}
+			if time.Now().After(deadline) {
+				e.D.DisarmAll()
+				return "inconclusive", "watchdog: writers did not block"
+			}
+			time.Sleep(200 * time.Microsecond)
+		}
+		// free-running from here: every cycle ingests the top and fails to
+		// merge (the queued ping makes the first one a merge-all cycle, so the
+		// poisoned operand is resolved whatever MinMergePercentage says)
+		nt.NotifyMerger("mergeAll", false)
+		e.D.DisarmAll()
+		if h, inc := set.waitAll(wd); h != "" {
+			return "hang/blocked-writers-while-merge-operator-refuses", h + fmt.Sprintf("\nrefused FullMerge calls so far: %d", atomic.LoadInt64(&eng.MergeFailures)-f0)
+		} else if inc != "" {
+			return "inconclusive", inc
+		}
+		for _, c := range calls {
+			if c.err != nil {
+				return "released-writer-error", fmt.Sprintf("%s returned %v", c.name, c.err)
+			}
+		}
+		if atomic.LoadInt64(&eng.MergeFailures) == f0 {
+			return "inconclusive", "the merge operator was never asked to merge the poisoned operand"
+		}
+		unit("writers-released-while-merges-fail")
+		sr.Counters["merge.refused"] += atomic.LoadInt64(&eng.MergeFailures) - f0
+		// the operator relents: a synchronous notification and Close must return
+		atomic.StoreInt32(&eng.MergeFailArmed, 0)
+		set2 := &callSet{}
+		set2.goCall("NotifyMerger(sync)", func() error { return nt.NotifyMerger("mergeAll", true) })
+		if h, inc := set2.waitAll(wd); h != "" {
+			return "hang/notify-after-merge-operator-relents", h
+		} else if inc != "" {
+			return "inconclusive", inc
+		}
+		var got []byte
+		if cs.N%2 == 0 { // the refused operand was not lost or applied twice
+			got, _ = coll.Get([]byte("k"), moss.ReadOptions{})
+			if want := "v0|" + string(eng.MergePoison); string(got) != want {
+				return "merge-retry-wrong-value", fmt.Sprintf("after the operator relented Get(k)=%q, want %q", got, want)
+			}
+			unit("value-after-retry-checked")
+		}
+		set3 := &callSet{}
+		set3.goCall("Close", func() error { return coll.Close() })
+		if h, inc := set3.waitAll(wd); h != "" {
+			return "hang/close", h
+		} else if inc != "" {
+			return "inconclusive", inc
+		}
+		if c, d := afterCloseChecks(coll, nil); c != "" {
+			return c, d
+		}
+		e.Coll = nil
+		e.CloseStore()
 	case "close-while-lower-keeps-failing":
 		// A lower level that returns an error from every update, promptly:
 		// Close must still return, after a bounded number of further
@@ -1007,7 +1115,8 @@ func collClosed(c moss.Collection) bool {
 
 var c16Scenarios = []string{"backpressure-close", "backpressure-release", "close-during-update", "close-merger-waitoutgoing",
 	"notify-racing-close", "lower-stalled-resumed", "random-close", "random-close", "notify-flood", "notify-flood", "close-writer-parked-installed",
-	"round-completes-as-merger-starts-waiting", "close-while-lower-keeps-failing", "sync-notify-queued-behind-async"}
+	"round-completes-as-merger-starts-waiting", "close-while-lower-keeps-failing", "sync-notify-queued-behind-async",
+	"merge-refused-with-blocked-writers"}
 
 func genC16(r *eng.Rng, idx int) *c16Case {
 	sc := c16Scenarios[idx%len(c16Scenarios)]
